@@ -1,11 +1,17 @@
 import GomlVerif.Lemmas.DcePrune
 import GomlVerif.Lemmas.DceScope
+import GomlVerif.Lemmas.DceSim6
 /-!
 # DCE (C02 / C09): theorems about the model of `go/dce.rs` (`Model/Dce.lean`)
 
 (a) `dce_no_unused`, (b) `dce_decl_before_use` — Go's two rules about locals, for every block
 that is well scoped (`scopeErrs = []`: every local is declared before use and nothing is
 shadowed) and contains no block expression (`shapeOK`);
+(c) `dce_preserves` — every definite `Go.Sem` run (ends normally or panics) of a block is reproduced
+by its DCE'd form: same world (stdout, heap, spawned, extern events), same signal / returned
+value / panic, and environments that agree on the live variables.  Forward simulation, fuel
+existential on the output side; `Go.Sem` is fuel-monotone (`Lemmas/GoSemMono.lean`), so the
+output result does not depend on which sufficient fuel is taken (`dce_output_unique`).
 (d) `prune_imports_exact`, `prune_funcs_closed`, `prune_funcs_keeps_roots`.
 -/
 set_option linter.unusedSimpArgs false
@@ -73,6 +79,111 @@ private def exShadow : List GStmt :=
 
 example : unusedStmts (dceBody exShadow) = ["x"] ∧ scopeErrs ["x"] [] exShadow = ["x"] := by decide
 end Examples
+
+/-! ## (c) DCE preserves `Go.Sem` -/
+open Goml.Sem in
+/-- **(c) preservation.**  `F` is the file the block runs in (callees are looked up in `F` on both
+    sides), `ρi` / `ρo` the environments of the input / output run, related by `Rel` on the live-in
+    and needs sets that `dce_block_with_live` computes (for a function body: the same parameter
+    environment, `dce_preserves_body`).  Contract on the input, all decidable and evaluated on
+    every real input of the correspondence run:
+    * `scopeErrs D (keys ρi) ss = []` — declared before use, no shadowing (liveness is by name);
+    * `shapeOK ss` — no `Expr::Block`, no `x = …x…`, `_` never read, a type-switch binding is not
+      assigned in its clauses;
+    * `semOK P ss L` — every initialiser / stored value that the pass deletes satisfies `P`, and a
+      variable assigned in a loop body is neither live after the loop nor live at the start of an
+      iteration (the pass analyses a loop body once and treats `break` as falling through);
+    and `P e → Inert F e`: what is deleted cannot panic and cannot touch the world — after the
+    `fix:` commit `expr_has_side_effects` covers division, indexing, dereference and type
+    assertion, so `P := inertSyn false` (proved sound: `inertSyn_sound`) leaves out only field
+    access and `&`-allocation.
+    Conclusion: if the input run is definite, some fuel makes the output run end the same way. -/
+theorem dce_preserves (F : GFile) (D : Names) (P : GExpr → Bool) (hP : ∀ e, P e = true → Inert F e)
+    (ss : List GStmt) (L : Names) (ρi ρo : GEnv) (w : GWorld) (n : Nat) (r : GRes (GEnv × Sig))
+    (hscope : scopeErrs D (keys ρi) ss = []) (hshape : shapeOK ss = true) (hsem : semOK P ss L = true)
+    (hrel : Rel (dceStmts ss L).live (dceStmts ss L).needs ρo ρi)
+    (hrun : execBlockG n F ρi w ss = r) (hdef : Definite r) :
+    ∃ m r', execBlockG m F ρo w (dceStmts ss L).out = r' ∧ ResRel L [] r' r :=
+  (sim_all hP n).bl hscope hshape hsem hrel hrun hdef
+
+open Goml.Sem in
+/-- a function body: both runs start from the same parameter environment, nothing is live at the end -/
+theorem dce_preserves_body (F : GFile) (D : Names) (P : GExpr → Bool) (hP : ∀ e, P e = true → Inert F e)
+    (body : List GStmt) (ρ : GEnv) (w : GWorld) (n : Nat) (r : GRes (GEnv × Sig))
+    (hblank : ¬ "_" ∈ keys ρ)
+    (hscope : scopeErrs D (keys ρ) body = []) (hshape : shapeOK body = true) (hsem : semOK P body [] = true)
+    (hrun : execBlockG n F ρ w body = r) (hdef : Definite r) :
+    ∃ m r', execBlockG m F ρ w (dceBody body) = r' ∧ ResRel [] [] r' r :=
+  dce_preserves F D P hP body [] ρ ρ w n r hscope hshape hsem (rel_refl _ _ ρ hblank) hrun hdef
+
+open Goml.Sem in
+/-- the instance with the proved syntactic criterion for "cannot fail, cannot write" -/
+theorem dce_preserves_syn (F : GFile) (D : Names) (body : List GStmt) (ρ : GEnv) (w : GWorld) (n : Nat)
+    (r : GRes (GEnv × Sig)) (hblank : ¬ "_" ∈ keys ρ)
+    (hscope : scopeErrs D (keys ρ) body = []) (hshape : shapeOK body = true)
+    (hsem : semOK (inertSyn false) body [] = true)
+    (hrun : execBlockG n F ρ w body = r) (hdef : Definite r) :
+    ∃ m r', execBlockG m F ρ w (dceBody body) = r' ∧ ResRel [] [] r' r :=
+  dce_preserves_body F D (inertSyn false) (fun e h => inertSyn_sound F e h) body ρ w n r hblank hscope hshape
+    hsem hrun hdef
+
+open Goml.Sem in
+/-- fuel does not matter once it suffices: two runs of the same block that did not stop for lack
+    of fuel give the same result (from fuel monotonicity) -/
+theorem dce_output_unique (F : GFile) (ρ : GEnv) (w : GWorld) (ss : List GStmt) (m1 m2 : Nat)
+    (h1 : (execBlockG m1 F ρ w ss).nf) (h2 : (execBlockG m2 F ρ w ss).nf) :
+    execBlockG m1 F ρ w ss = execBlockG m2 F ρ w ss := by
+  rw [← execBlockG_mono (Nat.le_max_left m1 m2) h1, ← execBlockG_mono (Nat.le_max_right m1 m2) h2]
+
+section SemExamples
+open Goml.Sem
+private def vb (x : String) : GExpr := .var x .bool
+private def ρb : GEnv := [("x", .bool false), ("k", .bool false), ("p", .nilv)]
+private def retB : GRes (GEnv × Sig) → Option Bool
+  | .ok (_, .ret (.bool v)) _ => some v
+  | _ => none
+private def isFuel : GRes (GEnv × Sig) → Bool
+  | .fail .fuel _ => true
+  | _ => false
+private def isPanic : GRes (GEnv × Sig) → Bool
+  | .fail (.panic _) _ => true
+  | _ => false
+
+/-- non-vacuity: a block on which DCE deletes a store, inside the contract -/
+private def exOK : List GStmt :=
+  [ .assign "k" (.bool true), .assign "k" (.un .not .bool (vb "x")),
+    .ite (vb "k") [.assign "x" (.bool true)] (some [.assign "x" (.bool false)]), .ret (some (vb "x")) ]
+example : scopeErrs ["x", "k", "p"] (keys ρb) exOK = [] ∧ shapeOK exOK = true ∧
+    semOK (inertSyn false) exOK [] = true ∧ (dceBody exOK).length = 3 ∧
+    retB (execBlockG 20 { items := [] } ρb {} exOK) = some true ∧
+    retB (execBlockG 20 { items := [] } ρb {} (dceBody exOK)) = some true := by decide +kernel
+
+/-- the loop clause of `semOK` is needed: `for { k = x; x = true; if k { break } }; return k` —
+    the store to `x` is dead for a single pass over the body and is deleted; the input returns
+    `true`, the output never leaves the loop -/
+private def exLoop : List GStmt :=
+  [ .loop [ .assign "k" (vb "x"), .assign "x" (.bool true), .ite (vb "k") [.brk] none ],
+    .ret (some (vb "k")) ]
+example : scopeErrs ["x", "k", "p"] (keys ρb) exLoop = [] ∧ shapeOK exLoop = true ∧
+    semOK (inertSyn false) exLoop [] = false ∧
+    retB (execBlockG 40 { items := [] } ρb {} exLoop) = some true ∧
+    isFuel (execBlockG 40 { items := [] } ρb {} (dceBody exLoop)) = true := by decide +kernel
+
+/-- the self-assignment clause of `shapeOK` is needed: `x = true; x = !x; return x` — `dce.rs`
+    removes `x` from the live set after adding the uses of `!x`, so `x = true` looks dead -/
+private def exSelf : List GStmt :=
+  [ .assign "x" (.bool true), .assign "x" (.un .not .bool (vb "x")), .ret (some (vb "x")) ]
+example : shapeOK exSelf = false ∧ retB (execBlockG 20 { items := [] } ρb {} exSelf) = some false ∧
+    retB (execBlockG 20 { items := [] } ρb {} (dceBody exSelf)) = some true := by decide +kernel
+
+/-- the hypothesis on `P` is needed: a dead `k = p.f` with `p == nil` panics in the input and is
+    deleted (field access is not an effect for `dce.rs`); `inertSyn false` rejects it -/
+private def exNil : List GStmt :=
+  [ .assign "k" (.field "f" .bool (.var "p" (.ptr (.name "T")))), .ret (some (vb "x")) ]
+example : semOK (fun _ => true) exNil [] = true ∧ semOK (inertSyn false) exNil [] = false ∧
+    isPanic (execBlockG 20 { items := [] } ρb {} exNil) = true ∧
+    retB (execBlockG 20 { items := [] } ρb {} (dceBody exNil)) = some false := by decide +kernel
+end SemExamples
 
 /-! ## (d) pruning -/
 /-- **`prune_unused_imports` is exact**: an import spec survives iff some call node
